@@ -253,10 +253,10 @@ def run_check(prop, tier, seed, replay_path=None, jobs=None):
             v['case'] = v['full']
             r1 = mod.replay(v['case'])
         r2 = mod.replay(v['case'])
-        if json.dumps(r1, sort_keys=True, default=_json_default) != json.dumps(r2, sort_keys=True, default=_json_default):
-            sys.stderr.write('HARNESS ERROR: replay of %r is not deterministic\n' % (v['case'],))
-            return 2
-        if not r1:
+        unstable = json.dumps(r1, sort_keys=True, default=_json_default) != json.dumps(r2, sort_keys=True, default=_json_default)
+        if unstable or not r1:
+            # (`unstable`: two replays of the case in THIS process differ - the case itself changes state the library keeps between
+            # calls; whether that is a deterministic, history-dependent violation is decided by the fresh-process runs below)
             # The case fails only after the operations that preceded it in its shard (state kept by the library between
             # calls, e.g. a module-level cache).  Re-run the whole shard twice in fresh processes: if the same violation
             # recurs both times it is a deterministic, history-dependent violation and the shard is its replay.
@@ -265,7 +265,8 @@ def run_check(prop, tier, seed, replay_path=None, jobs=None):
             keys = [sorted(json.dumps(w['sig'], sort_keys=True, default=_json_default) for w in (a or [])) for a in again]
             mykey = json.dumps(v['sig'], sort_keys=True, default=_json_default)
             if again[0] is None or keys[0] != keys[1] or mykey not in keys[0]:
-                sys.stderr.write('HARNESS ERROR: violation does not reproduce on replay: %r\n' % (v,))
+                sys.stderr.write('HARNESS ERROR: %s: %r\n' % ('replay is not deterministic, also across fresh processes' if unstable
+                                                               else 'violation does not reproduce on replay', v))
                 return 2
             v['case'] = {'shard': sh, 'history_dependent': True, 'first_failing_case': v['case']}
             v['detail'] += ' [fails only after the preceding operations of its shard: state kept between calls]'
